@@ -99,6 +99,9 @@ resume_eq_uninterrupted_values_with_na na_double_offset_invisible_without_resume
 # the value-level statements that belong to C11 (stored values are those of the labelled step) and C08 (thermo row is that of the stored phase point)
 THEOREMS_C11B = ["MDState." + t for t in "values_are_state_at_label_fresh uninterrupted_run_values same_snapshot na_fresh_stream values_are_state_at_label_na".split()]
 THEOREMS_C08B = ["MDState." + t for t in "thermo_of_written_phase writes_of_one_step_read_one_state".split()]
+THEOREMS_C08C = ["C08b." + t for t in """shadowE_explicit shadowE_matrix_form shadowE_one_dim vv_harmonic_shadow_nd vv_harmonic_shadow_nd_iterate vv_energy_error_bounded_no_drift
+vv_energy_error_uniform_bound vv_energy_error_uniform_bound_trace vv_matches_exact_flow_to_second_order_nd vv_symplectic_nd vv_harmonic_step_1d vv_symplectic_1d
+vv_matches_exact_flow_to_second_order exact_flow_solves vv_second_order_local_error_harmonic ex_hL""".split()]
 THEOREMS_C05B = ["C05b." + t for t in """get_error_rowwise rowWise_of_pointwise pointwise_of_rowWise row_independence_two_batches row_independence_forward0 row_independence_forward12_of_rowWise
 batch_is_concat_of_alone_forward0 batch_permutation_equivariance_forward0 adaptive_mix_row_independence_partial row_independence_forward1_partial row_independence_forward2_partial
 pulay_same_fixed_points sp2_batch_rowwise sp2_batch_permutation adaptive_mix_batch_coupling_witness adaptive_mix_batch_small_trace_witness adaptive_mix_small_trace_oracle_realised
